@@ -164,7 +164,14 @@ def run_batch(exe, args, dirs, timeout=None, watchdog=None):
     wd = watchdog or WATCHDOG[0]
     res = {}
     todo = list(dirs)
+    hangs = 0
     while todo:
+        if hangs >= 2:
+            wd = min(wd, 3)      # the verdict is already "HANG": do not spend the full watchdog on every further input
+        if hangs >= 8:
+            for d in todo:       # ... and after eight of them the remaining inputs are not run at all
+                res[d] = ["S\tnot-run\tafter 8 hangs in this batch"]
+            break
         p = subprocess.Popen([exe] + args, stdin=subprocess.PIPE, stdout=subprocess.PIPE, stderr=subprocess.DEVNULL, text=True)
         q = queue.Queue()
 
@@ -188,6 +195,7 @@ def run_batch(exe, args, dirs, timeout=None, watchdog=None):
                 l = q.get(timeout=max(0.05, wd - (time.time() - last)))
             except queue.Empty:
                 verdict = "HANG\tno answer within %d s after: %s" % (wd, " ; ".join(x.replace("\t", " ")[:40] for x in cur) or "(nothing)")
+                hangs += 1
                 break
             if l is None:
                 p.wait()
@@ -214,7 +222,7 @@ def stage_results(lines):
     r = {}
     for l in lines:
         f = l.split("\t")
-        if f[0] in "PDGBTILX" and len(f) >= 2:
+        if f[0] in "PDGBTILXS" and len(f) >= 2:
             r[f[0]] = (f[1], f[2] if len(f) > 2 else "", f[3] if len(f) > 3 else "")
     return r
 
@@ -381,7 +389,7 @@ def _pipeline(ctx, macro, build, root):
                     if k2 == kind and s2 == stage and (c2 == cid if cid else m2[:40] == msg[:40]):
                         return True
                 return False
-            small = pipeline_gen.shrink(p, still, limit=25 if kind == "hang" else 150 if ctx.quick else 400)
+            small = pipeline_gen.shrink(p, still, limit=12 if kind == "hang" else 150 if ctx.quick else 400)
             reported.append({"kind": kind, "stage": {"P": "parse_locales", "G": "code generator", "B": "TranslationsInfos::parse_at_dir",
                                                      "T": "get_translations/write_to_dir", "I": "get_icu_keys", "L": "get_locales_langids",
                                                      "D": "DefaultedLocales::compute/default_of on every key",
